@@ -56,14 +56,14 @@ def main(chk, prop, spec, tier, seed):
         chk.log(f"[C16] loom {name}: " + " | ".join(l[5:] for l in lines))
     # Miri: uninitialised reads in histories, data races between two free-running callers, several schedules
     def run_seed(s):
-        return s, chk.run_variant("D", "miri", ["c16", "--small", "--hard", hard], timeout=3600, miri_seed=s)
+        return s, chk.run_variant("D", "miri", ["c16", "--small", "--gap", chk.longest_gap()], timeout=3600, miri_seed=s)
     miri_cases = 0
     with concurrent.futures.ThreadPoolExecutor(max_workers=8) as ex:
         for s, (res, rc, out, err) in ex.map(run_seed, miri_seeds):
             if res is None or rc != 0:
                 msg = [l for l in err.splitlines() if "Undefined Behavior" in l or "Data race" in l or "error" in l]
                 v = {"kind": "miri-error", "fmt": "-", "cfg": "D", "show": f"c16 --small under Miri (seed {s})", "got": (msg[0] if msg else f"exit {rc}")[:300],
-                     "want": "no uninitialised read, no data race", "replay_argv": ["c16", "--small", "--hard", hard], "fam": "miri"}
+                     "want": "no uninitialised read, no data race", "replay_argv": ["c16", "--small", "--gap", chk.longest_gap()], "fam": "miri"}
                 path = chk.write_replay(prop, "D", "miri", v, len(extra_viol))
                 extra_viol.append((path, v))
                 continue
